@@ -93,11 +93,11 @@ var checks = []Check{
 	{
 		ID: "C01", Pkg: "checks/c01", Instr: coreInstr,
 		QuickRuns: 60000, ThoroughRuns: 3000000, QuickBudgetS: 60, ThoroughBudgetS: 1200, ShrinkS: 45,
-		Rule: "one run = a program of 1-6 critical sections x 1-6 operations over 1-5 real resources whose kinds are drawn from: archetype local, cell, indexed cell, IncMap, HashMap, InputChan, OutputChan, LocalShared, Persistent(LocalShared) on in-memory badger, FileSystem on the simulated disk, TCP mailbox to a sink archetype on another node, TCP mailbox fed by a source archetype; attempts fail at drawn positions (false await after k operations; a resource refusing its n-th read/write/index/pre-commit; real read time-outs) 1-2 times before succeeding; every read is compared with a reference model (last committed state + own writes; inputs re-offered in order), outputs/deliveries/files/database compared at the end; non-trivial = at least one aborted attempt and one checked read; distinct = distinct interleaving digests",
+		Rule: "one run = a program of 1-6 critical sections x 1-6 operations over 1-5 real resources whose kinds are drawn from: archetype local, cell, indexed cell, IncMap, HashMap, InputChan, OutputChan, LocalShared, Persistent(LocalShared) on in-memory badger, FileSystem on the simulated disk, TCP mailbox to a sink archetype on another node, TCP mailbox fed by a source archetype, the CRDT resource (grow-only counter) with a peer replica whose own archetype commits and aborts increments and judges every value it reads, the two-phase-commit resource with two passive replicas reached through net/rpc; attempts fail at drawn positions (false await after k operations; a resource refusing its n-th read/write/index/pre-commit; real read time-outs) 1-2 times before succeeding; every read is compared with a reference model (last committed state + own writes; inputs re-offered in order), outputs/deliveries/files/database compared at the end; non-trivial = at least one aborted attempt and one checked read; distinct = distinct interleaving digests",
 		Real:        realU,
 		Stub:        append([]string{"peers of mailbox resources: harness-built source/sink archetypes on the real runtime and real TCP mailboxes", "disk for FileSystem: verif/sim/sfs in-memory files; badger runs in its in-memory mode"}, stubU...),
-		Assumptions: []string{"resource kinds not in the mix here (relaxed mailboxes, CRDT, 2PC, nested archetype, raft PersistentLog/CustomInChan) get their abort/commit atomicity checked by C06/C11/C13/C16 scenarios", "SingleOutputChan is not transactional by contract and is exercised in C06 only"},
-		MustProbe:   []string{"attempt_aborted", "abort_after_write_3_resources", "abort_in_read", "kind_mbox_out", "kind_mbox_in", "kind_file", "kind_incmap", "kind_shared"}, MinRunsForProbes: 2000,
+		Assumptions: []string{"resource kinds not in the mix here (relaxed mailboxes, nested archetype, raft PersistentLog/CustomInChan) get their abort/commit atomicity checked by C06/C16 scenarios; contended 2PC and multi-writer CRDT scenarios are C11/C13", "SingleOutputChan is not transactional by contract and is exercised in C06 only"},
+		MustProbe:   []string{"attempt_aborted", "abort_after_write_3_resources", "abort_in_read", "kind_mbox_out", "kind_mbox_in", "kind_file", "kind_incmap", "kind_shared", "kind_crdt", "kind_twopc"}, MinRunsForProbes: 2000,
 	},
 	{
 		ID: "C06", Pkg: "checks/c06", Instr: coreInstr,
@@ -111,7 +111,7 @@ var checks = []Check{
 	{
 		ID: "C07", Pkg: "checks/c07", Instr: coreInstr,
 		QuickRuns: 40000, ThoroughRuns: 2000000, QuickBudgetS: 60, ThoroughBudgetS: 1200, ShrinkS: 45,
-		Rule: "one run = 2-5 archetype contexts sharing 1-4 variables (scalar or function-valued, accessed through indices) through the real LocalSharedManager with lock time-outs drawn from 0 / 1 ms / 50 ms / 1 s; each context runs 1-5 sections that increment, transfer an amount between two variables, or read/write unique values in a drawn order (opposite orders occur), failing 1-2 times at drawn positions; schedules pre-empt at every yield and stall tasks while they hold locks; the history of committed sections (invoke/return stamped with event sequence numbers) is checked for strict serializability with porcupine against a multi-register transaction model outside the simulation; all contexts must finish within 30 simulated minutes; non-trivial = at least 2 committed sections and a pre-emption or lock time-out; distinct = distinct interleaving digests",
+		Rule: "one run = 2-5 archetype contexts sharing 1-4 variables (scalar or function-valued, accessed through indices) through the real LocalSharedManager with lock time-outs drawn from 0 / 1 ms / 50 ms / 1 s; each context runs 1-5 sections that increment, transfer an amount between two variables, or read/write unique values in a drawn order (opposite orders occur), failing 1-2 times at drawn positions; schedules pre-empt at every yield and stall tasks while they hold locks; the history of committed sections (invoke/return stamped with event sequence numbers) is checked for strict serializability with porcupine against a multi-register transaction model outside the simulation; no operation on a shared variable takes longer than the variable's lock time-out (net of the simulated time the simulator itself took from the task: injected stalls and waiting to be scheduled); all contexts must finish within 30 simulated minutes; non-trivial = at least 2 committed sections and a pre-emption or lock time-out; distinct = distinct interleaving digests",
 		Real:        realU,
 		Stub:        stubU,
 		Assumptions: []string{"porcupine time-outs (20 s) are counted as inconclusive, never reported", "Persistent wrapping of shared variables is exercised by C01"},
@@ -120,7 +120,7 @@ var checks = []Check{
 	{
 		ID: "C13", Pkg: "checks/c13", Instr: coreInstr,
 		QuickRuns: 20000, ThoroughRuns: 1000000, QuickBudgetS: 60, ThoroughBudgetS: 1200, ShrinkS: 45,
-		Rule: "one run = 2-4 nodes each with the real NewCRDT resource (GCounter value, broadcaster, merger, net/rpc receiver) over the simulated network, broadcast interval 5 or 50 ms, send/dial time-out 0.1 or 2 s, peers coming up late; each node runs 1-4 sections: read, or write an increment that is a distinct power of two per ATTEMPT, hold the section open for 0-3 intervals (ticks and incoming merges land inside it), then commit or abort 1-2 times; afterwards every node keeps reading once per interval; oracles on every read: no bit of an aborted attempt, no bit of a section still in flight at another node, no bit seen in an earlier committed read missing (received state is never lost); after updates stop every node must read exactly the union of committed bits within 20 intervals + 2 send time-outs + 1 s; non-trivial = at least one committed update and a pre-emption; distinct = distinct interleaving digests",
+		Rule: "one run = 2-4 nodes each with the real NewCRDT resource (GCounter value, broadcaster, merger, net/rpc receiver) over the simulated network, broadcast interval 5 or 50 ms, send/dial time-out 0.1 or 2 s, peers coming up late, in a third of the runs a merge queue of 1-2 slots instead of 100 (instrumentation rule R8: literal queue capacities are per-run knobs); each node runs 1-4 sections: read, or write an increment that is a distinct power of two per ATTEMPT, hold the section open for 0-3 intervals (ticks and incoming merges land inside it), then commit or abort 1-2 times; afterwards every node keeps reading once per interval; oracles on every read: no bit of an aborted attempt, no bit of a section still in flight at another node, no bit seen in an earlier committed read missing (received state is never lost); after updates stop every node must read exactly the union of committed bits within 20 intervals + 2 send time-outs + 1 s; non-trivial = at least one committed update and a pre-emption; distinct = distinct interleaving digests",
 		Real:        realU,
 		Stub:        stubU,
 		Assumptions: []string{"GCounter with power-of-two increments stands for any CRDT value (attribution of updates); AWORSet/LWWSet values are covered at value level by C12", "no connection resets or partitions are injected here (the property speaks of connected peers)"},
@@ -129,7 +129,7 @@ var checks = []Check{
 	{
 		ID: "C11", Pkg: "checks/c11", Instr: coreInstr, Extra: map[string][]string{"distsys/resources": {"resources_access.go"}},
 		QuickRuns: 20000, ThoroughRuns: 1000000, QuickBudgetS: 60, ThoroughBudgetS: 1200, ShrinkS: 45,
-		Rule: "one run = 2-5 nodes each owning the real NewTwoPC resource and an archetype running 0-3 increment sections (read x; x := x+1), some failing 1-2 times after the write; transport drawn: in-process LocalReplicaHandle, a simulator ReplicaHandle delivering to the peer's exported Receive with drawn delay and (in half of those runs) loss, duplication and reply loss, or the real RPCReplicaHandle (net/rpc + gob) over the simulated network; at every scheduling point: per replica the version never decreases and any two replicas at the same version hold the same committed value; at the end: every programmed increment committed within 30 simulated minutes (progress), the committed increments read 0..K-1 each exactly once (single-copy register, no lost update), no replica still holds an accepted pre-commit, replicas at the final version hold K; non-trivial = at least 2 committed increments and a pre-emption; distinct = distinct interleaving digests",
+		Rule: "one run = 2-5 nodes each owning the real NewTwoPC resource and an archetype running 0-3 increment sections (read x; x := x+1), some failing 1-2 times after the write; transport drawn: in-process LocalReplicaHandle, a simulator ReplicaHandle delivering to the peer's exported Receive with drawn delay and (in half of those runs) loss, duplication and reply loss, or the real RPCReplicaHandle (net/rpc + gob) over the simulated network; at every scheduling point: per replica the version never decreases, any two replicas at the same version hold the same committed value, and no replica holds the accepted pre-commit of a proposer whose later Abort it has already processed (observed at the proposer's handle on every transport); at the end: every programmed increment committed within 30 simulated minutes (progress), the committed increments read 0..K-1 each exactly once (single-copy register, no lost update), no replica still holds an accepted pre-commit, replicas at the final version hold K; non-trivial = at least 2 committed increments and a pre-emption; distinct = distinct interleaving digests",
 		Real:        realU,
 		Stub:        append([]string{"simulated-message transport: harness ReplicaHandle calling the peer's exported TwoPCReceiver.Receive"}, stubU...),
 		Assumptions: []string{"all replicas stay reachable (a majority is required for progress); loss/duplication only on the simulated-message transport and only until the writers are done", "replica state is read through an overlay-added accessor at scheduling points"},
